@@ -1513,6 +1513,36 @@ fn main() {
     let ctx = build_ctx();
     let setup_s = t_start.elapsed().as_secs_f64();
 
+    // --replay <file>: re-execute one recorded history (no exploration) on a fresh real pool
+    // against the reference model and report the first mismatching step.
+    if let Some(path) = arg_value("--replay") {
+        let v: serde_json::Value = serde_json::from_str(&std::fs::read_to_string(&path).unwrap_or_else(|e| machinery_error(&format!("replay file {path}: {e}")))).unwrap_or_else(|e| machinery_error(&format!("replay file {path}: {e}")));
+        let key = v["key"].as_str().unwrap_or_else(|| machinery_error("replay file has no key"));
+        let (sname, ops) = key.split_once('|').unwrap_or_else(|| machinery_error("replay key is not <limits>|<op>>...>"));
+        let si = (0..SETTINGS.len()).find(|&i| setting_name(i) == sname).unwrap_or_else(|| machinery_error(&format!("unknown limit setting {sname}")));
+        let hist: Vec<u8> = ops
+            .split('>')
+            .filter(|s| !s.is_empty())
+            .map(|n| ctx.ops.iter().position(|(name, _)| name == n).unwrap_or_else(|| machinery_error(&format!("unknown operation {n}"))) as u8)
+            .collect();
+        println!("replaying {} steps under {sname}", hist.len());
+        match run_history(&ctx, si, &hist) {
+            Ok(_) => {
+                println!("history conforms to the reference model at every step (no violation)");
+                std::process::exit(0);
+            }
+            Err((i, so)) => {
+                println!("step {i} ({}): expected {} observed {}", ctx.ops[hist[i] as usize].0, so.exp_text, so.got_text);
+                for (p, s) in &so.mismatches {
+                    println!("  {}: {}", PROPS[*p], s);
+                }
+                let prop = v["property"].as_str().unwrap_or("?");
+                println!("VIOLATION property={prop} replay={path}");
+                std::process::exit(1);
+            }
+        }
+    }
+
     // depth targets and wall budget
     let depth_override: Option<usize> = arg_value("--depth").and_then(|s| s.parse().ok());
     let depths: [usize; 4] = match (depth_override, thorough) {
